@@ -1,7 +1,7 @@
 """S rules: sharding (routing, hash, aggregates, argument pass-through)."""
 import ast
 
-from .framework import rule, Ob, fmt_trace, sql_events, call_events, values_in, deep_values
+from .framework import rule, Ob, fmt_trace, sql_events, call_events, values_in, deep_values, real_call
 from .model import AnalysisError, walk_shallow, dotted
 from .values import V
 
@@ -30,6 +30,8 @@ def s1(ctx):
     for name, f in sorted(ci.methods.items()):
         if 'key' not in f.params or f.name in ('reset',):
             continue
+        if f.name.startswith('_') and not f.name.startswith('__'):
+            continue     # private routing helper: analysed inlined into the public methods
         ok = True
         why = ''
         wit = None
@@ -296,7 +298,7 @@ def s6(ctx):
             continue
         for p in ctx.paths(f, 'default'):
             for e in p.trace:
-                if e.kind != 'CALL' or e.d.get('operator') or e.fn is not f:
+                if not real_call(e) or e.d.get('operator'):
                     continue
                 k = (f.qual, e.line, e.node.col_offset)
                 if k in sites:
